@@ -161,6 +161,18 @@ def check_case(case, rec, bases, max3d=23):
             if np.max(np.abs(np.array(s.points, dtype=float) - p0)) > 0 or np.max(np.abs(np.array(s.weights) - w0)) > 0:
                 rec.violation(tag + '/mirror_aliases_original', {'sequence': seq}, cj)
                 return
+        if seq and case['box'][0][0] > 0:
+            # a mirrored scheme is an object of its own: changing its arrays in place must not change the scheme it
+            # was derived from (checked on a throw-away pair built the same way)
+            with repo.quiet():
+                s_a = build(ctor, make_base(b)[0])
+                m_a = s_a.mirror() if dim == 1 else getattr(s_a, 'mirror_' + seq[0] if 'xyz'.index(seq[0]) < dim else 'mirror_x')()
+            keep_p, keep_w = np.array(s_a.points, copy=True), np.array(s_a.weights, copy=True)
+            m_a.weights *= 0.125
+            m_a.points *= 0.5
+            if np.max(np.abs(np.array(s_a.points) - keep_p)) > 0 or np.max(np.abs(np.array(s_a.weights) - keep_w)) > 0:
+                rec.violation(tag + '/mirror_shares_arrays_with_original', {'sequence': seq}, cj)
+                return
         # --- exactness on the target box, all monomials up to the advertised total degree
         deg = d - LOSS[ctor]
         box = case['box'][:dim]
